@@ -26,6 +26,11 @@ const MAX_THREADS: usize = 6;
 /// Per-thread cap on hook events (a thread makes at most 8 calls of at most
 /// 8 + 3 x 8 steps each on a correct tree).
 const STEP_CAP: u32 = 600;
+/// A snapshot run alone (nobody else moves) reads the sequence word, the two
+/// slot words and the sequence word again: 4 loads.  The property only says
+/// "bounded, and no retry unless a write completed", so a couple of extra loads
+/// are tolerated; a needless second pass (7 loads) is not.
+const SOLO_SNAPSHOT_MAX_LOADS: usize = 6;
 const FLAG_BASE: usize = 0x10;
 const N_FLAGS: usize = 4;
 /// Flags are pre-registered as locations 0..4; the first real atomic any
@@ -990,8 +995,8 @@ fn judge(plan: &Plan, r: &RunResult, stats: &mut Stats, log: &mut LogHash) -> Ve
         }
         if r.threads[c.tid].3 {
             // Solo run: nobody else moves, so exactly 4 loads and no retry.
-            if sc && loads != 4 {
-                push_v(&mut vs, "C18", "C18.solo_steps", format!("snapshot run alone took {} atomic loads instead of 4", loads));
+            if sc && loads > SOLO_SNAPSHOT_MAX_LOADS {
+                push_v(&mut vs, "C18", "C18.solo_steps", format!("snapshot run alone took {} atomic loads; one pass takes 4, a needless second pass 7", loads));
             }
             stats.bump("probe.solo_snapshot_checked");
         }
@@ -1361,8 +1366,15 @@ fn judge_nfs(plan: &Plan, r: &RunResult, stats: &mut Stats, log: &mut LogHash) -
         for (j, e) in evs.iter().enumerate() {
             if let Ev::Store { loc, val } = e {
                 if *loc == SEQ_LOC && j >= 2 {
-                    if let Ev::Store { val: base, .. } = &evs[j - 2] {
-                        commits.push((*val, *base));
+                    // The two stores before the commit are the pair; which of them is the
+                    // base time is decided by the voucher relation, not by their order.
+                    if let (Ev::Store { val: a, .. }, Ev::Store { val: b, .. }) = (&evs[j - 2], &evs[j - 1]) {
+                        let bits = |x: u64| -> u64 { unsafe { std::mem::transmute::<raffle::Voucher, u64>(VOUCH.vouch(x)) } };
+                        if bits(*a) == *b {
+                            commits.push((*val, *a));
+                        } else if bits(*b) == *a {
+                            commits.push((*val, *b));
+                        }
                     }
                 }
             }
@@ -1401,8 +1413,8 @@ fn judge_nfs(plan: &Plan, r: &RunResult, stats: &mut Stats, log: &mut LogHash) -
                         if locks > 0 {
                             push_v(&mut vs, "C18", "C18.reader_locks", format!("get_base_time_unlocked performed {} lock operation(s)", locks));
                         }
-                        if r.threads[*tid].3 && sc && loads != 4 {
-                            push_v(&mut vs, "C18", "C18.solo_steps", format!("get_base_time_unlocked run alone took {} atomic loads instead of 4", loads));
+                        if r.threads[*tid].3 && sc && loads > SOLO_SNAPSHOT_MAX_LOADS {
+                            push_v(&mut vs, "C18", "C18.solo_steps", format!("get_base_time_unlocked run alone took {} atomic loads; one pass takes 4, a needless second pass 7", loads));
                         }
                         let prev = last_seen.get(tid).copied().unwrap_or(0);
                         if *base < prev {
